@@ -60,10 +60,21 @@ def records_for(ctx, d, rng, k, rid0):
         labels = [[1, 2], [3, 1], [0, 2], [5, 5]][(k // 4) % 4]
         ds['probes'] = np.array([labels[0] if c < (nc + 1) // 2 else labels[1] for c in range(nc)])
     curated = k % 2 == 1
-    if curated:
+    if curated and k % 8 == 7:
+        # clusters that differ from the templates WITHOUT any new id: two templates exchange their numbers
+        used = np.unique(ds['st'])
+        sc = np.array(ds['st'], dtype=np.int64)
+        if len(used) >= 2:
+            a, b = used[0], used[-1]
+            sc[ds['st'] == a], sc[ds['st'] == b] = b, a
+        ds['sc'] = sc
+    elif curated:
         ds['sc'] = curate_single_origin(rng, ds['st'], nt)
     p = D.write_dataset(d / ('s%d' % k), ds)
     m = D.load(p)
+    if k % 4 == 2:
+        m.close()             # opened a second time: the files the first opening created are read back
+        m = D.load(p)
     recs = []
     try:
         wmi4 = ints(ds['wmi_eff'], 4)
